@@ -117,7 +117,7 @@ def struct_contracts(s: Struct, with_builder=True):
         shift = f"({idx} * {f.stride})" if f.array else "0"
         bound = f"{idx} < {f.count}" if f.array else None
         inv_self = inv_expr(s, "$SELFRAW")
-        if f.readable:
+        if f.readable and not f.name.startswith("r#"):
             bits = f"get_spec($SELFRAW as u128, {f.ranges_lit()}, {shift})"
             out.append({"impl": S, "trait": None, "fn": f.name, "attrs": [
                 f"kani::requires({conj(inv_self, bound)})",
@@ -125,11 +125,11 @@ def struct_contracts(s: Struct, with_builder=True):
         if f.writable:
             pre = conj(inv_self, bound, value_valid(f.ty, val))
             new = f"put_spec($SELFRAW as u128, {f.ranges_lit()}, {shift}, {f.ty.view(val)})"
-            out.append({"impl": S, "trait": None, "fn": f"with_{f.name}", "attrs": [
+            out.append({"impl": S, "trait": None, "fn": f"with_{f.base}", "attrs": [
                 f"kani::requires({pre})",
                 f"kani::ensures(|r: &{S}| {conj(inv_expr(s, 'r.$RAW'), f'(r.$RAW as u128) == {new}')})"]})
             newo = f"put_spec(old($SELFRAW) as u128, {f.ranges_lit()}, {shift}, {f.ty.view(val)})"
-            out.append({"impl": S, "trait": None, "fn": f"set_{f.name}", "attrs": [
+            out.append({"impl": S, "trait": None, "fn": f"set_{f.base}", "attrs": [
                 f"kani::requires({pre})",
                 "kani::modifies(self)",
                 f"kani::ensures(|_r| {conj(inv_self, f'($SELFRAW as u128) == {newo}')})"]})
@@ -147,7 +147,7 @@ def struct_contracts(s: Struct, with_builder=True):
             else:
                 acc = f"put_spec({acc}, {f.ranges_lit()}, 0, {f.ty.view('$ARG0')})"
                 vv = value_valid(f.ty, "$ARG0")
-            out.append({"impl": canon_partial(s, m0), "trait": None, "fn": f"with_{f.name}", "attrs": [
+            out.append({"impl": canon_partial(s, m0), "trait": None, "fn": f"with_{f.base}", "attrs": [
                 f"kani::requires({conj(inv_expr(s, '$SELFRAW'), vv)})",
                 f"kani::ensures(|r: &{partial_ty(s, m1)}| {conj(inv_expr(s, 'r.$RAW'), f'(r.$RAW as u128) == {acc}')})"]})
         final = chain[-1][2] if chain else 0
@@ -254,17 +254,26 @@ def struct_harnesses(p: Program, s: Struct):
 
     for f in s.fields:
         fn = f.name
+        fb = f.base
         idx_decl = "let in_index: usize = kani::any();" if f.array else ""
         idx_arg = "in_index, " if f.array else ""
         idx_only = "in_index" if f.array else ""
         shift = f"(in_index * {f.stride})" if f.array else "0"
-        if f.readable:
-            hs.append(H(f"{pre}_{fn}_get", "get", f"{S}::{fn}",
+        if f.readable and fn.startswith("r#"):
+            # Kani's contract macros cannot name a raw identifier (`__kani_replace_r#type` is not an identifier): the getter's
+            # postcondition is asserted in a loop-free full-domain harness instead (complete proof, not reusable as a stub)
+            b0 = f"kani::assume(in_index < {f.count});" if f.array else ""
+            bits = f"get_spec(in_raw as u128, {f.ranges_lit()}, {shift})"
+            hs.append(H(f"{pre}_{fb}_get", "get", None,
+                        f"{any_struct(s, 's_')} {idx_decl} {b0} let r_ = s_.{fn}({idx_only}); assert!({f.ty.result_pred('(&r_)', bits)}); kani::cover!(true);",
+                        ["#[kani::proof]"], struct=s, fld=f, inputs=("in_raw",) + (("in_index",) if f.array else ()), needs=[(S, fn)]))
+        elif f.readable:
+            hs.append(H(f"{pre}_{fb}_get", "get", f"{S}::{fn}",
                         f"{any_struct(s, 's_')} {idx_decl} let _r = s_.{fn}({idx_only}); kani::cover!(true);",
                         [f"#[kani::proof_for_contract({S}::{fn})]"], struct=s, fld=f,
                         inputs=("in_raw",) + (("in_index",) if f.array else ()), needs=[(S, fn)]))
             if f.array:
-                hs.append(H(f"{pre}_{fn}_oob_get", "oob_get", None,
+                hs.append(H(f"{pre}_{fb}_oob_get", "oob_get", None,
                             f"{any_struct(s, 's_')} {idx_decl} kani::assume(in_index >= {f.count}); let _r = s_.{fn}(in_index); "
                             f"kani::cover!(true, \"returned\");",
                             ["#[kani::proof]", "#[kani::should_panic]"], struct=s, fld=f, inputs=("in_raw", "in_index"),
@@ -274,46 +283,46 @@ def struct_harnesses(p: Program, s: Struct):
             vv = value_valid(f.ty, "in_val")
             assume_v = f"kani::assume({vv});" if vv else ""
             ins = ("in_raw",) + (("in_index",) if f.array else ()) + ("in_val_v",)
-            hs.append(H(f"{pre}_{fn}_with", "with", f"{S}::with_{fn}",
-                        f"{any_struct(s, 's_')} {idx_decl} {anyv} let _r = s_.with_{fn}({idx_arg}in_val); kani::cover!(true);",
-                        [f"#[kani::proof_for_contract({S}::with_{fn})]"], struct=s, fld=f, inputs=ins, needs=[(S, f"with_{fn}")]))
+            hs.append(H(f"{pre}_{fb}_with", "with", f"{S}::with_{fb}",
+                        f"{any_struct(s, 's_')} {idx_decl} {anyv} let _r = s_.with_{fb}({idx_arg}in_val); kani::cover!(true);",
+                        [f"#[kani::proof_for_contract({S}::with_{fb})]"], struct=s, fld=f, inputs=ins, needs=[(S, f"with_{fb}")]))
             heavy = False   # (kept for reference) see DESIGN.md: callee contracts are detached instead
             if not heavy:
-                hs.append(H(f"{pre}_{fn}_set", "set", f"{S}::set_{fn}",
-                            f"{any_struct(s, 's_', True)} {idx_decl} {anyv} s_.set_{fn}({idx_arg}in_val); kani::cover!(true);",
-                            [f"#[kani::proof_for_contract({S}::set_{fn})]"], struct=s, fld=f, inputs=ins, needs=[(S, f"set_{fn}")]))
+                hs.append(H(f"{pre}_{fb}_set", "set", f"{S}::set_{fb}",
+                            f"{any_struct(s, 's_', True)} {idx_decl} {anyv} s_.set_{fb}({idx_arg}in_val); kani::cover!(true);",
+                            [f"#[kani::proof_for_contract({S}::set_{fb})]"], struct=s, fld=f, inputs=ins, needs=[(S, f"set_{fb}")]))
             else:
                 # Kani's modifies() instrumentation blows up (57 s, 4.9 GB per harness) when the body reaches UInt::new's
                 # panic path; the same postcondition is asserted in a loop-free full-domain harness instead (complete proof,
                 # the frame is immediate: &mut self of a one-field struct)
                 b0 = f"kani::assume(in_index < {f.count});" if f.array else ""
                 post = conj(inv_expr(s, f"s_.{R}"), f"(s_.{R} as u128) == put_spec(in_raw as u128, {f.ranges_lit()}, {shift}, in_val_v)")
-                hs.append(H(f"{pre}_{fn}_set", "set", None,
-                            f"{any_struct(s, 's_', True)} {idx_decl} {b0} {anyv} {assume_v} s_.set_{fn}({idx_arg}in_val); assert!({post}); kani::cover!(true);",
-                            ["#[kani::proof]"], struct=s, fld=f, inputs=ins, needs=[(S, f"set_{fn}")]))
+                hs.append(H(f"{pre}_{fb}_set", "set", None,
+                            f"{any_struct(s, 's_', True)} {idx_decl} {b0} {anyv} {assume_v} s_.set_{fb}({idx_arg}in_val); assert!({post}); kani::cover!(true);",
+                            ["#[kani::proof]"], struct=s, fld=f, inputs=ins, needs=[(S, f"set_{fb}")]))
             bound = f"kani::assume(in_index < {f.count});" if f.array else ""
-            hs.append(H(f"{pre}_{fn}_setwith", "setwith", None,
-                        f"{any_struct(s, 's_')} {idx_decl} {bound} {anyv} {assume_v} let before_ = s_.{R}; let w_ = s_.with_{fn}({idx_arg}in_val); "
-                        f"assert!(s_.{R} == before_); let mut m_ = s_; m_.set_{fn}({idx_arg}in_val); assert!(m_.{R} == w_.{R}); kani::cover!(true);",
-                        ["#[kani::proof]"], struct=s, fld=f, inputs=ins, needs=[(S, f"with_{fn}"), (S, f"set_{fn}")]))
+            hs.append(H(f"{pre}_{fb}_setwith", "setwith", None,
+                        f"{any_struct(s, 's_')} {idx_decl} {bound} {anyv} {assume_v} let before_ = s_.{R}; let w_ = s_.with_{fb}({idx_arg}in_val); "
+                        f"assert!(s_.{R} == before_); let mut m_ = s_; m_.set_{fb}({idx_arg}in_val); assert!(m_.{R} == w_.{R}); kani::cover!(true);",
+                        ["#[kani::proof]"], struct=s, fld=f, inputs=ins, needs=[(S, f"with_{fb}"), (S, f"set_{fb}")]))
             if f.array:
-                hs.append(H(f"{pre}_{fn}_oob_with", "oob_with", None,
-                            f"{any_struct(s, 's_')} {idx_decl} kani::assume(in_index >= {f.count}); {anyv} {assume_v} let _r = s_.with_{fn}(in_index, in_val); "
+                hs.append(H(f"{pre}_{fb}_oob_with", "oob_with", None,
+                            f"{any_struct(s, 's_')} {idx_decl} kani::assume(in_index >= {f.count}); {anyv} {assume_v} let _r = s_.with_{fb}(in_index, in_val); "
                             f"kani::cover!(true, \"returned\");",
                             ["#[kani::proof]", "#[kani::should_panic]"], struct=s, fld=f, inputs=ins, expect="panic",
-                            needs=[(S, f"with_{fn}")]))
-                hs.append(H(f"{pre}_{fn}_oob_set", "oob_set", None,
-                            f"{any_struct(s, 's_', True)} {idx_decl} kani::assume(in_index >= {f.count}); {anyv} {assume_v} s_.set_{fn}(in_index, in_val); "
+                            needs=[(S, f"with_{fb}")]))
+                hs.append(H(f"{pre}_{fb}_oob_set", "oob_set", None,
+                            f"{any_struct(s, 's_', True)} {idx_decl} kani::assume(in_index >= {f.count}); {anyv} {assume_v} s_.set_{fb}(in_index, in_val); "
                             f"kani::cover!(true, \"returned\");",
                             ["#[kani::proof]", "#[kani::should_panic]"], struct=s, fld=f, inputs=ins, expect="panic",
-                            needs=[(S, f"set_{fn}")]))
+                            needs=[(S, f"set_{fb}")]))
             if f.readable:
                 # read-back from the with_ contract only (with_ stubbed by its verified contract, getter inlined)
-                hs.append(H(f"{pre}_{fn}_rb", "rb", None,
-                            f"{any_struct(s, 's_')} {idx_decl} {bound} {anyv} {assume_v} let w_ = s_.with_{fn}({idx_arg}in_val); "
+                hs.append(H(f"{pre}_{fb}_rb", "rb", None,
+                            f"{any_struct(s, 's_')} {idx_decl} {bound} {anyv} {assume_v} let w_ = s_.with_{fb}({idx_arg}in_val); "
                             f"let g_ = w_.{fn}({idx_only}); assert!({f.ty.result_pred('(&g_)', 'in_val_v')}); kani::cover!(true);",
-                            ["#[kani::proof]", f"#[kani::stub_verified({S}::with_{fn})]"], struct=s, fld=f, inputs=ins,
-                            needs=[(S, f"with_{fn}"), (S, fn)]))
+                            ["#[kani::proof]", f"#[kani::stub_verified({S}::with_{fb})]"], struct=s, fld=f, inputs=ins,
+                            needs=[(S, f"with_{fb}"), (S, fn)]))
     return hs
 
 
@@ -332,23 +341,23 @@ def history_harnesses(p: Program, s: Struct, max_pairs=12):
             d += f" kani::assume({vv});"
         if f.array:
             d += f" let in_i{tag}: usize = kani::any(); kani::assume(in_i{tag} < {f.count});"
-            return d, f"{recv}.with_{f.name}(in_i{tag}, in_v{tag})", f"(in_i{tag} * {f.stride})"
-        return d, f"{recv}.with_{f.name}(in_v{tag})", "0"
+            return d, f"{recv}.with_{f.base}(in_i{tag}, in_v{tag})", f"(in_i{tag} * {f.stride})"
+        return d, f"{recv}.with_{f.base}(in_v{tag})", "0"
 
     for f in W:
         d1, e1, sh1 = call(f, "s_", "a")
         d2, _, _ = call(f, "s_", "b")
         # same (field, index) written twice: last write wins
         if f.array:
-            e_ab = f"s_.with_{f.name}(in_ia, in_va).with_{f.name}(in_ia, in_vb)"
-            e_b = f"s_.with_{f.name}(in_ia, in_vb)"
+            e_ab = f"s_.with_{f.base}(in_ia, in_va).with_{f.base}(in_ia, in_vb)"
+            e_b = f"s_.with_{f.base}(in_ia, in_vb)"
         else:
-            e_ab = f"s_.with_{f.name}(in_va).with_{f.name}(in_vb)"
-            e_b = f"s_.with_{f.name}(in_vb)"
-        hs.append(H(f"{pre}_{f.name}_overwrite", "overwrite", None,
+            e_ab = f"s_.with_{f.base}(in_va).with_{f.base}(in_vb)"
+            e_b = f"s_.with_{f.base}(in_vb)"
+        hs.append(H(f"{pre}_{f.base}_overwrite", "overwrite", None,
                     f"{any_struct(s, 's_')} {d1} {d2} assert!({e_ab}.{R} == {e_b}.{R}); kani::cover!(true);",
-                    ["#[kani::proof]", f"#[kani::stub_verified({S}::with_{f.name})]"], struct=s, fld=f,
-                    inputs=("in_raw", "in_va_v", "in_vb_v"), needs=[(S, f"with_{f.name}")]))
+                    ["#[kani::proof]", f"#[kani::stub_verified({S}::with_{f.base})]"], struct=s, fld=f,
+                    inputs=("in_raw", "in_va_v", "in_vb_v"), needs=[(S, f"with_{f.base}")]))
     pairs = 0
     for i, f in enumerate(W):
         for g in W[i + 1:]:
@@ -359,13 +368,13 @@ def history_harnesses(p: Program, s: Struct, max_pairs=12):
             pairs += 1
             df, _, _ = call(f, "s_", "a")
             dg, _, _ = call(g, "s_", "b")
-            fa = (f"with_{f.name}(in_ia, in_va)" if f.array else f"with_{f.name}(in_va)")
-            gb = (f"with_{g.name}(in_ib, in_vb)" if g.array else f"with_{g.name}(in_vb)")
-            hs.append(H(f"{pre}_{f.name}_{g.name}_commute", "commute", None,
+            fa = (f"with_{f.base}(in_ia, in_va)" if f.array else f"with_{f.base}(in_va)")
+            gb = (f"with_{g.base}(in_ib, in_vb)" if g.array else f"with_{g.base}(in_vb)")
+            hs.append(H(f"{pre}_{f.base}_{g.base}_commute", "commute", None,
                         f"{any_struct(s, 's_')} {df} {dg} assert!(s_.{fa}.{gb}.{R} == s_.{gb}.{fa}.{R}); kani::cover!(true);",
-                        ["#[kani::proof]", f"#[kani::stub_verified({S}::with_{f.name})]", f"#[kani::stub_verified({S}::with_{g.name})]"],
+                        ["#[kani::proof]", f"#[kani::stub_verified({S}::with_{f.base})]", f"#[kani::stub_verified({S}::with_{g.base})]"],
                         struct=s, fld=f, inputs=("in_raw", "in_va_v", "in_vb_v"),
-                        needs=[(S, f"with_{f.name}"), (S, f"with_{g.name}")]))
+                        needs=[(S, f"with_{f.base}"), (S, f"with_{g.base}")]))
     # aliasing: a write through f observed through an overlapping readable g
     n_alias = 0
     for f in W:
@@ -380,10 +389,10 @@ def history_harnesses(p: Program, s: Struct, max_pairs=12):
             else:
                 dg, ge, shg = "", f"{g.name}()", "0"
             exp = (f"get_spec(put_spec(in_raw as u128, {f.ranges_lit()}, {shf}, in_va_v), {g.ranges_lit()}, {shg})")
-            hs.append(H(f"{pre}_{f.name}_{g.name}_alias", "alias", None,
+            hs.append(H(f"{pre}_{f.base}_{g.base}_alias", "alias", None,
                         f"{any_struct(s, 's_')} {df} {dg} let g_ = {ef}.{ge}; assert!({g.ty.result_pred('(&g_)', exp)}); kani::cover!(true);",
-                        ["#[kani::proof]", f"#[kani::stub_verified({S}::with_{f.name})]"], struct=s, fld=f,
-                        inputs=("in_raw", "in_va_v"), needs=[(S, f"with_{f.name}"), (S, g.name)]))
+                        ["#[kani::proof]", f"#[kani::stub_verified({S}::with_{f.base})]"], struct=s, fld=f,
+                        inputs=("in_raw", "in_va_v"), needs=[(S, f"with_{f.base}"), (S, g.name)]))
     return hs
 
 
@@ -409,10 +418,10 @@ def builder_harnesses(p: Program, s: Struct):
             decl = f.ty.any_value("in_val")
             vv = value_valid(f.ty, "in_val")
         assume_v = f"kani::assume({vv});" if vv and vv != "true" else ""
-        hs.append(H(f"{pre}_{f.name}_step", "step", f"{partial_path(s, m0)}::with_{f.name}",
-                    f"let p_: {partial_ty(s, m0)} = kani::any(); let in_raw = p_.0.{R}; {decl} {assume_v} let _r = p_.with_{f.name}(in_val); kani::cover!(true);",
-                    [f"#[kani::proof_for_contract({partial_path(s, m0)}::with_{f.name})]", f"#[kani::stub_verified({S}::with_{f.name})]"],
-                    struct=s, fld=f, inputs=("in_raw",), needs=[(canon_partial(s, m0), f"with_{f.name}"), (S, f"with_{f.name}")]))
+        hs.append(H(f"{pre}_{f.base}_step", "step", f"{partial_path(s, m0)}::with_{f.base}",
+                    f"let p_: {partial_ty(s, m0)} = kani::any(); let in_raw = p_.0.{R}; {decl} {assume_v} let _r = p_.with_{f.base}(in_val); kani::cover!(true);",
+                    [f"#[kani::proof_for_contract({partial_path(s, m0)}::with_{f.base})]", f"#[kani::stub_verified({S}::with_{f.base})]"],
+                    struct=s, fld=f, inputs=("in_raw",), needs=[(canon_partial(s, m0), f"with_{f.base}"), (S, f"with_{f.base}")]))
     final = chain[-1][2] if chain else 0
     hs.append(H(f"{pre}_build", "build", f"{partial_path(s, final)}::build",
                 f"let p_: {partial_ty(s, final)} = kani::any(); let in_raw = p_.0.{R}; let _r = p_.build(); kani::cover!(true);",
@@ -441,9 +450,9 @@ def builder_harnesses(p: Program, s: Struct):
             if vv:
                 decls.append(f"kani::assume({vv});")
             acc = f"put_spec({acc}, {f.ranges_lit()}, 0, {f.ty.view(f'a{k}')})"
-        stmts.append(f"let p{k + 1}_: {partial_ty(s, m1)} = p{k}_.with_{f.name}(a{k});")
-        stubs.append(f"#[kani::stub_verified({partial_path(s, m0)}::with_{f.name})]")
-        needs.append((canon_partial(s, m0), f"with_{f.name}"))
+        stmts.append(f"let p{k + 1}_: {partial_ty(s, m1)} = p{k}_.with_{f.base}(a{k});")
+        stubs.append(f"#[kani::stub_verified({partial_path(s, m0)}::with_{f.base})]")
+        needs.append((canon_partial(s, m0), f"with_{f.base}"))
     stubs.append(f"#[kani::stub_verified({partial_path(s, final)}::build)]")
     needs.append((canon_partial(s, final), "build"))
     hs.append(H(f"{pre}_chain", "chain", None,
